@@ -607,7 +607,12 @@ def check_returned(ctx, model, cfg, x, out, sol, e0, label):
     # a discipline output was computed from coupling inputs that moved by at most rho since, and every
     # discipline is q-Lipschitz in the max norm w.r.t. its coupling inputs: the defect is at most q * rho
     # (a factor 2 is granted; MDAQuasiNewton has its own, looser rho)
-    tau = (2.0 * rho if uses_quasi_newton(cfg) else 2.0 * model.q * rho) + rounding
+    # With an acceleration or a relaxation the returned iterate is the transformed one: its distance to the point at
+    # which the disciplines were last executed is not controlled by q (Aitken: 8e-7 at tolerance 1e-6 with q = 0.2 on a
+    # weakly coupled discipline lagging one sweep; thorough tier, seed 5). The defect is then held to the requested
+    # tolerance itself (rho), with the same factor 2.
+    transformed = any(s.get("acc", "NoTransformation") != "NoTransformation" or float(s.get("omega", 1.0)) != 1.0 for s in solver_parts(cfg))
+    tau = (2.0 * rho if uses_quasi_newton(cfg) or transformed else 2.0 * model.q * rho) + rounding
     defect, where = model.defect(data, names)
     ctx.check(defect <= tau, "fixed_point",
               f"{label}: re-executing {where} on the returned data changes it by {defect:.3e} > {tau:.3e} "
